@@ -685,7 +685,7 @@ def check_C12(ctx):
 # =======================================================================================
 
 DESCS = ["", "does things", "first line\nsecond line", "  padded  ", "with (parens) and $dollar", "tab\there",
-         "100% sure\nuse %d or %s here\nand 50%", "rate in %\n"]
+         "100% sure\nuse %d or %s here\nand 50%", "rate in %\n", "\xc2\xa0", "\xc2\xa0nbsp padded\xe2\x80\x83"]
 
 
 def expected_help(cmds, long, tbl):
@@ -694,7 +694,7 @@ def expected_help(cmds, long, tbl):
     path = " ".join([cmds[0]["name"]] + [x["name"].split()[0] for x in cmds[1:]])
     opts = [d for d in c["decls"] if d["t"] == "opt"]
     args = [d for d in c["decls"] if d["t"] == "arg"]
-    spec = c["spec"].strip()
+    spec = core.go_trim_space(c["spec"])
     if not spec:
         spec = (("[OPTIONS] " if opts else "") + " ".join(a["name"] for a in args)).strip()
     lines = ["Usage: " + path + (" " + spec if spec else "") + (" COMMAND [arg...]" if c["subs"] else "")]
@@ -722,19 +722,19 @@ def expected_help(cmds, long, tbl):
 
     def row(first, d):
         parts = [d["desc"]]
-        ev = d["env"].split()
+        ev = core.go_fields(d["env"])
         parts.append("(env " + ", ".join("$" + v for v in ev) + ")" if ev else "")
         dv = default_text(d)
         parts.append("(default %s)" % dv if (dv and not d["hide"]) else "")
         text = ""
         for p in parts:
-            if p.strip(" \t\n\v\f\r") == "":
+            if core.go_trim_space(p) == "":
                 continue
             text = (text + " " if text else "") + p
         ls = text.split("\n")
-        out = ["  " + first + "\t" + ls[0].strip(" \t\n\v\f\r")]
+        out = ["  " + first + "\t" + core.go_trim_space(ls[0])]
         for l in ls[1:]:
-            out.append("  \t" + l.strip(" \t\n\v\f\r"))
+            out.append("  \t" + core.go_trim_space(l))
         return out
 
     if args:
@@ -775,7 +775,7 @@ def check_C17(ctx):
                     continue
                 used.update(nm.split())
                 k = rng.choice(list(defs))
-                decls.append(gen.mkopt(k, nm, desc=rng.choice(DESCS), env=rng.choice(["", "", "E1", "E1 E2", " E3 ", "E1  E2", "E1\tE2", "E1 \n E2  E4", "\tE3"]),
+                decls.append(gen.mkopt(k, nm, desc=rng.choice(DESCS), env=rng.choice(["", "", "E1", "E1 E2", " E3 ", "E1  E2", "E1\tE2", "E1 \n E2  E4", "\tE3", "E1\xc2\xa0E2", "E1\xe2\x80\x80E2\xe3\x80\x80"]),
                                        hide=rng.random() < 0.2, **{"def": list(rng.choice(defs[k]))}))
             for nm in rng.sample(["SRC", "DST", "X", "FILE_1"], rng.randint(0, 3)):
                 k = rng.choice(list(defs))
@@ -852,7 +852,7 @@ def expected_log(cu, env_vals, bound):
             log.append("C")
             good = True
             for piece in v.split(","):
-                p = piece.strip(" \t\n\v\f\r")
+                p = core.go_trim_space(piece)
                 log.append("S:" + p)
                 if p.startswith("bad"):
                     log.append("C")
